@@ -1,6 +1,6 @@
 import core
 META = {
-    'id': 'C02', 'props_v': 'Props/C02.v', 'bin': 'c02', 'profile': 'dev', 'hooks': True, 'groups': ['Routing'],
+    'id': 'C02', 'props_v': 'Props/C02.v', 'bin': 'c02', 'extra_bins': ['c02net'], 'profile': 'dev', 'hooks': True, 'groups': ['Routing'],
     'design_ref': 'DESIGN.md section 5, C02; design/C02.md',
     'technique': 'Coq proof (invariant by induction over arbitrary join/add/failure/evict histories; refinement of the bucket walk with its early exit to "the n nearest of the whole table" via the XOR ultrametric lemmas of Lib/Xor.v) + constants regenerated from source + differential correspondence (vm_compute) against the real DhtCoreEngine',
     'level_text': 'Theorems (Props/C02.v) for every history from the empty table (repeated ids, the local id, removal of absent ids included), every 256-bit key and every count: the table lists each id at most once, never the local id, every node in the bucket of its first differing bit, at most K=8 per bucket; find_nodes / FindNode / FindValue answers equal the first min(n, size) entries of the table sorted by XOR distance (unique: ascending without repeats, nothing nearer omitted), FindNode replies hold at most 20 and FindValue replies at most 8 nodes. The manager-level reply rule (merge of connected peers and table entries, one entry per DHT key, requester and self removed, nearest first, cap 8 <= 20) is proved about the model only. The model is tied to src/dht/core_engine.rs by regenerated constants and by running model and DhtCoreEngine on the same histories, comparing every Ok/Err and every answer (ids, addresses, order).',
